@@ -136,6 +136,43 @@ func OverWidth(p rtcp.Packet, mode int) int {
 	return n
 }
 
+// OverWidthEach builds, for every leaf whose Go type is wider than its wire field (at most the first,
+// a middle and the last occurrence of each field), the packet with just that leaf set to 1<<width and
+// to the largest value of its Go type.
+func OverWidthEach(mk func() rtcp.Packet, yield func(p rtcp.Packet, path, key string, v uint64)) {
+	base := Leaves(mk())
+	byKey := map[string][]int{}
+	var keys []string
+	for i, l := range base {
+		if l.Kind != "uint" || l.Bits >= l.v.Type().Bits() {
+			continue
+		}
+		if _, ok := byKey[l.Key]; !ok {
+			keys = append(keys, l.Key)
+		}
+		byKey[l.Key] = append(byKey[l.Key], i)
+	}
+	for _, k := range keys {
+		idx := byKey[k]
+		pick := map[int]bool{idx[0]: true, idx[len(idx)/2]: true, idx[len(idx)-1]: true}
+		for _, i := range idx {
+			if !pick[i] {
+				continue
+			}
+			for mode := 0; mode < 2; mode++ {
+				p := mk()
+				l := Leaves(p)[i]
+				v := uint64(1) << uint(l.Bits)
+				if mode == 1 {
+					v = uint64(1)<<uint(l.v.Type().Bits()) - 1
+				}
+				l.v.SetUint(v)
+				yield(p, l.Path, l.Key, v)
+			}
+		}
+	}
+}
+
 // NAlt is the number of alternative values of the leaf in the given tier.
 func (l Leaf) alphabet(thorough bool) []uint64 {
 	switch l.Kind {
